@@ -591,6 +591,15 @@ def method(E, st, recv: V, name, args, kw, n):
             st.set_set(recv, z3.Store(dom, coerce(args[0], et).t, True))
             yield st, vnone()
             return
+        if name == "remove":
+            e = coerce(args[0], et)
+            for st2, present in E.branch(st, z3.Select(dom, e.t)):
+                if present:
+                    st2.set_set(recv, z3.Store(st2.set_get(recv), e.t, False))
+                    yield st2, vnone()
+                else:
+                    yield st2, Raised(Exc(KeyError, origin="set.remove line %d" % line))
+            return
         if name == "discard":
             st.set_set(recv, z3.Store(dom, coerce(args[0], et).t, False))
             yield st, vnone()
